@@ -195,11 +195,14 @@ package tmconsensus
 //@ iface HashScheme.Block(hs, h)
 //@   modifies nothing
 
+// (A failing hash scheme counts as a failure of the environment, envfailed(), like a failing store.)
 //@ iface HashScheme.PubKeys(hs, keys)
 //@   ensures result1 == nil ==> bytes(result0) == HKeys(hs, keys)
+//@   ensures result1 != nil ==> envfailed()
 
 //@ iface HashScheme.VotePowers(hs, pows)
 //@   ensures result1 == nil ==> bytes(result0) == HPows(hs, pows)
+//@   ensures result1 != nil ==> envfailed()
 
 // ---- C09: the shipped feedback mappers are total over every result the engine can return ----
 
@@ -329,4 +332,18 @@ package tmconsensus
 
 //@ func ProposalSignBytes
 //@   trusted
+//@   modifies nothing
+
+// ---- validator set construction: the set carries exactly the validators given (used by the state machine, C08/C07) ----
+//@ func ValidatorsToPubKeys
+//@   property C08 C07
+//@   ensures len(result) == len(vs) && fresh(result)
+//@   modifies nothing
+//@   loop 1 invariant out-is-private: fresh(out) && len(out) == len(vs)
+
+//@ func NewValidatorSet
+//@   property C08 C07
+//@   requires hs != nil
+//@   ensures carries-the-validators: result1 == nil ==> result0.Validators == vs
+//@   ensures empty-on-error: result1 != nil ==> len(result0.Validators) == 0 && envfailed()
 //@   modifies nothing
